@@ -258,8 +258,11 @@ func (e *Env) execOp(op *spec.Op, tc *taskCtx, pre [][]byte, keepIn bool) (res s
 		i0 := *src.info
 		if !shared {
 			res.ParamsBefore = paramsDigest(params)
+			// always executed so that an operation takes the same steps alone and in a sched run
+			// (the planner places pins by the step indices of the solo reference)
+			kv := paramsKV(params)
 			if keepIn {
-				res.ParamsIn = paramsKV(params)
+				res.ParamsIn = kv
 			}
 		}
 		guard(&res, func() error {
